@@ -37,6 +37,7 @@ def check(model, rep, tier):
   rep.rule('TI-STATE', 'type map union never removes', floor=3)
   rep.rule('TI-STRONG', 'strong update only for assigned symbols', floor=5)
   rep.rule('TI-NONE', 'unknown operand => unknown result', floor=5)
+  rep.rule('TI-UNKNOWN', 'an unknown type absorbs known ones at joins and in annotations', floor=5)
   rep.rule('TI-UNPACK', 'assigned type restored after unpacking', floor=1)
   rep.rule('TI-CLOSURE', 'closure types only grow', floor=2)
   rep.rule('TI-FLAG', 'revisit flag ⇔ out changed', floor=1)
@@ -79,6 +80,11 @@ def check(model, rep, tier):
   for n in ast.walk(orm.node):
     if isinstance(n, ast.Call) and isinstance(n.func, ast.Attribute) and \
         n.func.attr in SHRINK:
+      # dropping a whole symbol (it is reported with no types at all) is not a
+      # removal from a type set
+      if n.func.attr == 'pop' and isinstance(n.func.value, ast.Attribute) and \
+          n.func.value.attr == 'types':
+        continue
       shr.append(core.norm(n))
     if isinstance(n, ast.AugAssign) and isinstance(n.op, (ast.Sub, ast.BitAnd)):
       shr.append(core.norm(n))
@@ -274,6 +280,125 @@ def check(model, rep, tier):
             'served again for a key that compares equal: equal keys do not mean '
             'equal types', {'stores': memo, 'resolver_calls': n_res},
             witness='count, total = 0, 0.0 -- total is reported as int')
+  # ---------------------------------------------------------------- TI-UNKNOWN
+  # "x = a; if c: x = <unknown>; return x": the branch that forgets x must say so
+  # to the join, or the join reports {type(a)} for a value of another type.  The
+  # state therefore carries a set U of symbols bound to a value of unknown type:
+  # (1) every symbol dropped by visit_node is added to U; (2) the join unites U
+  # and drops every symbol of U from the table, after the tables were united;
+  # (3) copying copies U, equality compares U (else the fixed point stops before
+  # U has reached a loop head); (4) a node whose types became unknown on a
+  # later visit loses the annotation an earlier visit wrote.
+  uattr = None
+  marked = bool(pops)
+  for c in pops:
+    blk = None
+    for par in ast.walk(vn.node):
+      for f_ in ('body', 'orelse'):
+        b_ = getattr(par, f_, None)
+        if isinstance(b_, list) and any(isinstance(st, ast.Expr) and st.value is c
+                                        for st in b_):
+          blk = b_
+    found = None
+    for st in blk or []:
+      v_ = st.value if isinstance(st, ast.Expr) else None
+      if isinstance(v_, ast.Call) and isinstance(v_.func, ast.Attribute) and \
+          v_.func.attr == 'add' and isinstance(v_.func.value, ast.Attribute) and \
+          core.norm(v_.func.value.value) == tout_name and len(v_.args) == 1 and \
+          core.norm(v_.args[0]) == core.norm(c.args[0]):
+        found = v_.func.value.attr
+    if found is None:
+      marked = False
+    else:
+      uattr = found
+  rep.check(marked, 'TI-UNKNOWN', '%s:forgotten-symbols-marked-unknown' % vn.site,
+            'a symbol whose types are dropped (rebound to a value the inferrer '
+            'cannot type) must be recorded as unknown in the outgoing state: a '
+            'missing entry means "not bound on this path" to the join, which then '
+            'reports the other path\'s types alone',
+            {'unknown_attribute': uattr}, line=vn.node.lineno,
+            witness='x = a; if c: x = t (untyped); return x -- {int} for a str')
+  if uattr is not None:
+    U = uattr
+    res_names = [core.norm(a.targets[0]) for a in ast.walk(orm.node)
+                 if isinstance(a, ast.Assign) and isinstance(a.value, ast.Call) and
+                 core.dotted(a.value.func) == '_TypeMap' and len(a.value.args) == 1 and
+                 core.norm(a.value.args[0]) == 'self']
+    rn = res_names[0] if res_names else None
+    body_ = orm.node.body
+    i_union = i_drop = i_tab = None
+    for i, st in enumerate(body_):
+      t_ = core.norm(st)
+      if rn and t_ in ('%s.%s |= %s.%s' % (rn, U, other, U),
+                       '%s.%s.update(%s.%s)' % (rn, U, other, U),
+                       '%s.%s = self.%s | %s.%s' % (rn, U, U, other, U),
+                       '%s.%s = %s.%s | self.%s' % (rn, U, other, U, U),
+                       '%s.%s = self.%s.union(%s.%s)' % (rn, U, U, other, U)):
+        i_union = i
+      if isinstance(st, ast.For) and core.norm(st.iter).startswith(other + '.types'):
+        i_tab = i
+      if rn and isinstance(st, ast.For) and isinstance(st.target, ast.Name) and \
+          core.norm(st.iter) in ('%s.%s' % (rn, U), 'self.%s | %s.%s' % (U, other, U)) \
+          and len(st.body) == 1 and core.norm(st.body[0]) in (
+              '%s.types.pop(%s, None)' % (rn, st.target.id),):
+        i_drop = i
+    ok_j = None not in (i_union, i_drop, i_tab) and i_tab < i_drop and i_union < i_drop \
+        and isinstance(body_[-1], ast.Return) and core.norm(body_[-1].value) == rn
+    rep.check(ok_j, 'TI-UNKNOWN', '%s:join-absorbs' % orm.site,
+              'the join must unite the unknown symbols of both operands and drop '
+              'each of them from the united table (after the tables were united): '
+              'known | unknown = unknown',
+              {'union_at': i_union, 'table_union_at': i_tab, 'drop_at': i_drop},
+              line=orm.node.lineno, witness='x = a; if c: x += 1.5; return x')
+    cp = any(core.norm(a) in ('self.%s = set(%s.%s)' % (U, ip, U),
+                              'self.%s = %s.%s.copy()' % (U, ip, U),
+                              'self.%s = set(%s.%s.copy())' % (U, ip, U))
+             for a in ast.walk(init.node) if isinstance(a, ast.Assign))
+    rep.check(cp, 'TI-UNKNOWN', '%s:copies-unknown' % init.site,
+              'a copy of a state must carry (a copy of) its unknown symbols',
+              line=init.node.lineno)
+    eqm = tm.methods.get('__eq__')
+    eo = eqm.params()[0] if eqm else None
+    okq = False
+    if eqm:
+      for x in ast.walk(eqm.node):
+        if isinstance(x, ast.If) and core.norm(x.test) in (
+            'self.%s != %s.%s' % (U, eo, U), '%s.%s != self.%s' % (eo, U, U),
+            'not self.%s == %s.%s' % (U, eo, U)) and len(x.body) == 1 and \
+            core.norm(x.body[0]) == 'return False':
+          okq = True
+        if isinstance(x, ast.BoolOp) and isinstance(x.op, ast.And) and any(
+            core.norm(v_) in ('self.%s == %s.%s' % (U, eo, U),
+                              '%s.%s == self.%s' % (eo, U, U)) for v_ in x.values) and any(
+                isinstance(r, ast.Return) and any(y is x for y in ast.walk(r))
+                for r in ast.walk(eqm.node)):
+          okq = True
+    rep.check(okq, 'TI-UNKNOWN', '%s:equality-compares-unknown' % (eqm.site if eqm else TI),
+              'two states that differ in their unknown symbols are different: the '
+              'driver stops revisiting when the state is "equal"',
+              line=eqm.node.lineno if eqm else None)
+  sv = model.func(TI, 'StmtInferrer.visit')
+  svp = sv.params()[0]
+  okd = False
+  for x in ast.walk(sv.node):
+    if isinstance(x, ast.If):
+      t_ = core.norm(x.test)
+      # if T is not None: set ... else / elif: delete
+      m_ = [n_ for n_ in ast.walk(sv.node) if isinstance(n_, ast.Call) and core.dotted(
+          n_.func) == 'anno.delanno' and len(n_.args) >= 2 and core.norm(n_.args[0]) == svp
+            and core.norm(n_.args[1]) == 'anno.Static.TYPES']
+      if t_.endswith(' is not None') and any(any(y is d for y in ast.walk(o))
+                                             for o in x.orelse for d in m_):
+        okd = True
+      if t_.endswith(' is None') and any(any(y is d for y in ast.walk(o))
+                                         for o in x.body for d in m_):
+        okd = True
+  rep.check(okd, 'TI-UNKNOWN', '%s:stale-annotation-removed' % sv.site,
+            'a statement is visited again when the types reaching it change; when '
+            'the result is unknown on the later visit, the annotation written by an '
+            'earlier visit (with fewer predecessors seen) must be removed',
+            line=sv.node.lineno, witness='x = a; if c: for x in "pq": pass; return x')
+
   # ---------------------------------------------------------------- TI-NONE
   si = model.cls(TI, 'StmtInferrer')
   for hname in ('visit_BinOp', 'visit_UnaryOp', 'visit_Compare', 'visit_Subscript'):
